@@ -86,7 +86,15 @@ def oracle(line, out):
                 return "ranges not strictly ascending / disjoint / non-adjacent: %s" % (rs,)
             prev_end = b
     if not GRAMMAR.fullmatch(text):
-        return None  # lenient input: 4xx or a canonical in-file result is all that is asked
+        # outside the grammar.  Text that is a bytes range set under NO reading - no '=', a unit other than
+        # "bytes" (case and blanks ignored), or not a single first-last / first- / -suffix spec after the '=' -
+        # is malformed whatever the file size: 400.  Anything else is lenient input: a 4xx or a canonical
+        # in-file result is all that is asked.
+        unit, eq, rest = text.partition("=")
+        if not eq or unit.strip().lower() != "bytes" or not re.search(r"\d-|-\d", rest):
+            if out != "http 400":
+                return "not a bytes range set: expected http 400, got %s" % out
+        return None
     specs = re.findall(r"(\d*)-(\d*)", text.split("=", 1)[1])
     if any(len(a) > 4300 or len(b) > 4300 for a, b in specs):
         return None if out == "http 400" or rs is not None else None
